@@ -290,6 +290,15 @@ func genC15(g *gen) {
 		fmt.Sprintf("x.verify 16 %s %s %s", hx(dmsg), hx(sig2[:len(sig2)-32]), hx(x2pk[:])),
 		fmt.Sprintf("x.verify 16 %s %s %s", hx(dmsg), hx(sig2), hx(xpk[:])),
 		fmt.Sprintf("a.xmss %s", hx(x2pk[:])))
+	// a message above one MiB, verified by many goroutines at once later on (large inputs take other paths through a
+	// hash wrapper than small ones)
+	{
+		bigMsg := bytes.Repeat([]byte{0xa7, 0x01}, 600000)
+		xb := newKey(g.bytes(48), 4, 0)
+		xbpk := xb.GetPK()
+		sb, _ := xb.Sign(bigMsg)
+		lines = append(lines, fmt.Sprintf("x.verify 16 %s %s %s", hx(bigMsg), hx(sb), hx(xbpk[:])))
+	}
 	lines = append(lines, goodV, goodO)
 	lines = append(lines, badV...)
 	// shared Dilithium key: created once, then signed with from every goroutine
